@@ -717,16 +717,32 @@ Definition walk_rel (base : slice) (h : res (exts6 * N * slice)) (s : res (slice
 Lemma bytes_ok_rest (o : N) (s : slice) k : bytes_ok (snd s) -> bytes_ok (@snd N bytes (o, drop k (snd s))).
 Proof. intros H. cbn [snd]. now apply bytes_ok_drop. Qed.
 
+(* `lia` is slow (20 s per call) when the context holds the boolean equations between the
+   fill flags and the struct's slots (ZifyBool case-splits on them): they never matter for
+   the arithmetic goals below, so they are cleared first (locally to the goal `lia` sees) *)
+Ltac clear_slots :=
+  repeat match goal with
+         | H : f_dest _ = _ |- _ => clear H
+         | H : f_route _ = _ |- _ => clear H
+         | H : f_fdest _ = _ |- _ => clear H
+         | H : f_frag _ = _ |- _ => clear H
+         | H : f_auth _ = _ |- _ => clear H
+         end.
+Ltac qlia := clear_slots; lia.
+Ltac rdokq s i :=
+  let v := fresh "v" in let E := fresh "E" in
+  destruct (rdU_ok s i) as (v & E); [qlia|]; rewrite E; cbn [bind].
+
 Lemma walk_agree fuel : forall base x rest nh fl fr,
   inv6 base x fl fr rest -> bytes_ok (snd rest) -> (N.to_nat (s_len rest) < fuel)%nat ->
   walk_rel base (Ipv6Extensions.loop fuel base x rest nh)
                 (Cut.walk true fuel (s_len base) rest nh fr fl).
 Proof.
-  induction fuel as [|f IH]; intros base x rest nh fl fr Hinv Hok Hfuel; [lia|].
+  induction fuel as [|f IH]; intros base x rest nh fl fr Hinv Hok Hfuel; [qlia|].
   pose proof Hinv as (I1 & I2 & I3 & I4 & I5 & I6 & I7 & I8 & I9 & I10).
   assert (Stop : walk_rel base (Ok (x, nh, rest)) (Ok (rest, nh, fr))).
   { unfold walk_rel. split; [reflexivity|]. split; [reflexivity|]. split; [now exists fl|assumption]. }
-  assert (Hle : s_len rest <= s_len base) by lia.
+  assert (Hle : s_len rest <= s_len base) by qlia.
   clear Hinv.
   cbn [Ipv6Extensions.loop Cut.walk andb].
   destruct (nh =? IPN_HOP_BY_HOP) eqn:E0.
@@ -744,15 +760,15 @@ Proof.
         try contradiction; [|reflexivity|reflexivity].
       destruct Sh as (S8 & Sle & Soff & Sth).
       rewrite (idx_from_eq _ _ Sle). rewrite (subN_ok _ _ Sle). cbn [bind]. rewrite (subU_rest _ _ Sle). cbn [bind].
-      unfold Ipv6RawExtHeaderSlice.next_header. rdok sl 0. rewrite Sth. cbn [bind].
-      apply IH; [|now apply bytes_ok_rest|rewrite s_len_drop; lia].
+      unfold Ipv6RawExtHeaderSlice.next_header. rdokq sl 0. rewrite Sth. cbn [bind].
+      apply IH; [|now apply bytes_ok_rest|rewrite s_len_drop; qlia].
       unfold inv6, fill_add, exts6_len, exts6_any, Ipv6Extensions.is_fragmenting_payload in *.
       rewrite E60, I2. cbn [is_some].
       cbn [f_dest f_route f_fdest f_frag f_auth x_hbh x_dest x_route x_fdest x_frag x_auth is_some olen] in *.
       rewrite Ert, Efd in *. cbn [is_some olen orb] in *. rewrite s_len_drop.
-      repeat split; auto; try lia.
-      all: try (intros; discriminate). all: try (unfold s_off in *; cbn [fst]; lia).
-      all: try (rewrite ?Bool.orb_true_r; cbn [orb]; destruct (0 <? _) eqn:Z; [reflexivity|lia]).
+      repeat split; auto; try qlia.
+      all: try (intros; discriminate). all: try (unfold s_off in *; cbn [fst]; qlia).
+      all: try (rewrite ?Bool.orb_true_r; cbn [orb]; destruct (0 <? _) eqn:Z; [reflexivity|qlia]).
     - rewrite I1. destruct (x_dest x) as [d|] eqn:Ed; cbn [is_some]; [exact Stop|].
       unfold Ipv6Extensions.raw_step.
       rewrite (subN_ok _ _ Hle). cbn [bind].
@@ -761,15 +777,15 @@ Proof.
         try contradiction; [|reflexivity|reflexivity].
       destruct Sh as (S8 & Sle & Soff & Sth).
       rewrite (idx_from_eq _ _ Sle). rewrite (subN_ok _ _ Sle). cbn [bind]. rewrite (subU_rest _ _ Sle). cbn [bind].
-      unfold Ipv6RawExtHeaderSlice.next_header. rdok sl 0. rewrite Sth. cbn [bind].
-      apply IH; [|now apply bytes_ok_rest|rewrite s_len_drop; lia].
+      unfold Ipv6RawExtHeaderSlice.next_header. rdokq sl 0. rewrite Sth. cbn [bind].
+      apply IH; [|now apply bytes_ok_rest|rewrite s_len_drop; qlia].
       unfold inv6, fill_add, exts6_len, exts6_any, Ipv6Extensions.is_fragmenting_payload in *.
       rewrite E60, I2. cbn [is_some].
       cbn [f_dest f_route f_fdest f_frag f_auth x_hbh x_dest x_route x_fdest x_frag x_auth is_some olen] in *.
       rewrite Ert, Ed in *. cbn [is_some olen orb] in *. rewrite s_len_drop.
-      repeat split; auto; try lia.
-      all: try (intros; discriminate). all: try (unfold s_off in *; cbn [fst]; lia).
-      all: try (rewrite ?Bool.orb_true_r; cbn [orb]; destruct (0 <? _) eqn:Z; [reflexivity|lia]). }
+      repeat split; auto; try qlia.
+      all: try (intros; discriminate). all: try (unfold s_off in *; cbn [fst]; qlia).
+      all: try (rewrite ?Bool.orb_true_r; cbn [orb]; destruct (0 <? _) eqn:Z; [reflexivity|qlia]). }
   destruct (nh =? IPN_ROUTE) eqn:E43.
   { cbn [orb]. rewrite I2.
     destruct (x_route x) as [rt|] eqn:Ert; cbn [is_some]; [exact Stop|].
@@ -780,17 +796,17 @@ Proof.
         try contradiction; [|reflexivity|reflexivity].
       destruct Sh as (S8 & Sle & Soff & Sth).
       rewrite (idx_from_eq _ _ Sle). rewrite (subN_ok _ _ Sle). cbn [bind]. rewrite (subU_rest _ _ Sle). cbn [bind].
-      unfold Ipv6RawExtHeaderSlice.next_header. rdok sl 0. rewrite Sth. cbn [bind].
-      apply IH; [|now apply bytes_ok_rest|rewrite s_len_drop; lia].
+      unfold Ipv6RawExtHeaderSlice.next_header. rdokq sl 0. rewrite Sth. cbn [bind].
+      apply IH; [|now apply bytes_ok_rest|rewrite s_len_drop; qlia].
     unfold inv6, fill_add, exts6_len, exts6_any, Ipv6Extensions.is_fragmenting_payload in *.
     rewrite E60, E43.
     cbn [f_dest f_route f_fdest f_frag f_auth x_hbh x_dest x_route x_fdest x_frag x_auth is_some olen] in *.
     rewrite Ert in *. cbn [is_some olen orb] in *. rewrite s_len_drop.
     assert (Fd : x_fdest x = None) by (apply I10; reflexivity).
     rewrite Fd in *. cbn [is_some olen orb] in *.
-    repeat split; auto; try lia.
-    all: try (intros; discriminate). all: try (unfold s_off in *; cbn [fst]; lia).
-    all: try (rewrite ?Bool.orb_true_r; cbn [orb]; destruct (0 <? _) eqn:Z; [reflexivity|lia]). }
+    repeat split; auto; try qlia.
+    all: try (intros; discriminate). all: try (unfold s_off in *; cbn [fst]; qlia).
+    all: try (rewrite ?Bool.orb_true_r; cbn [orb]; destruct (0 <? _) eqn:Z; [reflexivity|qlia]). }
   cbn [orb].
   destruct (nh =? IPN_FRAG) eqn:E44.
   { rewrite I4. destruct (x_frag x) as [fg|] eqn:Efg; cbn [is_some]; [exact Stop|].
@@ -800,17 +816,17 @@ Proof.
       try contradiction; [|reflexivity|reflexivity].
     destruct Sh as (S8 & Sle & Soff).
     rewrite S8. rewrite (idx_from_eq _ _ Sle). rewrite (subN_ok _ _ Sle). cbn [bind]. rewrite (subU_rest _ _ Sle). cbn [bind].
-    unfold Ipv6FragmentHeaderSlice.next_header. rdok sl 0.
+    unfold Ipv6FragmentHeaderSlice.next_header. rdokq sl 0.
     destruct (frag_is_fragmenting_ok sl S8) as (fb & Efb). rewrite Efb. cbn [bind].
-    apply IH; [|now apply bytes_ok_rest|rewrite s_len_drop; lia].
+    apply IH; [|now apply bytes_ok_rest|rewrite s_len_drop; qlia].
     unfold inv6, fill_add, exts6_len, exts6_any, Ipv6Extensions.is_fragmenting_payload in *.
     rewrite E60, E43, E44.
     cbn [f_dest f_route f_fdest f_frag f_auth x_hbh x_dest x_route x_fdest x_frag x_auth is_some olen] in *.
     rewrite Efg in *. cbn [is_some olen orb] in *. rewrite s_len_drop.
     assert (fr = false) by congruence. subst fr. cbn [orb].
-    repeat split; auto; try lia.
-    all: try (intros; discriminate). all: try (unfold s_off in *; cbn [fst]; lia).
-    all: try (rewrite ?Bool.orb_true_r; cbn [orb]; destruct (0 <? _) eqn:Z; [reflexivity|lia]). }
+    repeat split; auto; try qlia.
+    all: try (intros; discriminate). all: try (unfold s_off in *; cbn [fst]; qlia).
+    all: try (rewrite ?Bool.orb_true_r; cbn [orb]; destruct (0 <? _) eqn:Z; [reflexivity|qlia]). }
   destruct (nh =? IPN_AUTH) eqn:E51; [|exact Stop].
   rewrite I5. destruct (x_auth x) as [au|] eqn:Eau; cbn [is_some]; [exact Stop|].
   rewrite (subN_ok _ _ Hle). cbn [bind].
@@ -819,14 +835,14 @@ Proof.
     try contradiction; [|reflexivity|reflexivity].
   destruct Sh as (S12 & Sle & Soff & Sth & _).
   rewrite (idx_from_eq _ _ Sle). rewrite (subN_ok _ _ Sle). cbn [bind]. rewrite (subU_rest _ _ Sle). cbn [bind].
-  unfold IpAuthHeaderSlice.next_header. rdok sl 0. rewrite Sth. cbn [bind].
-  apply IH; [|now apply bytes_ok_rest|rewrite s_len_drop; lia].
+  unfold IpAuthHeaderSlice.next_header. rdokq sl 0. rewrite Sth. cbn [bind].
+  apply IH; [|now apply bytes_ok_rest|rewrite s_len_drop; qlia].
   unfold inv6, fill_add, exts6_len, exts6_any, Ipv6Extensions.is_fragmenting_payload in *.
   rewrite E60, E43, E44, E51.
   cbn [f_dest f_route f_fdest f_frag f_auth x_hbh x_dest x_route x_fdest x_frag x_auth is_some olen] in *.
   rewrite Eau in *. cbn [is_some olen orb] in *. rewrite s_len_drop.
-  repeat split; auto; try lia.
-  all: try (intros; discriminate). all: try (unfold s_off in *; cbn [fst]; lia).
-  all: try (rewrite ?Bool.orb_true_r; cbn [orb]; destruct (0 <? _) eqn:Z; [reflexivity|lia]).
+  repeat split; auto; try qlia.
+  all: try (intros; discriminate). all: try (unfold s_off in *; cbn [fst]; qlia).
+  all: try (rewrite ?Bool.orb_true_r; cbn [orb]; destruct (0 <? _) eqn:Z; [reflexivity|qlia]).
 Qed.
 
